@@ -284,6 +284,21 @@ theorem redirect_loc {code : Nat} {url : List Char} {code' : Nat} {loc : List Ch
   · exact Out.noConfusion h
   · injection h with h1 h2; exact ⟨h2.symm, h1.symm⟩
 
+/-- the only redirect of the static handler: `URL.Path` + `/`, sanitised -/
+theorem staticServe_loc {t : Tree} {p up : List Char} {code : Nat} {loc : List Char}
+    (h : staticServe t p up = .redirect code loc) : loc = sanitizeURI (up ++ ['/']) := by
+  simp only [staticServe] at h
+  split at h
+  · exact Out.noConfusion h
+  · split at h
+    · exact (redirect_loc h).1
+    · -- no redirect from fsFile
+      unfold fsFile at h
+      split at h
+      · exact Out.noConfusion h
+      · exact Out.noConfusion h
+      · split at h <;> exact Out.noConfusion h
+
 /-- every `Location` a component can emit is `sanitizeURI` of a value that keeps the first
     character of the request path -/
 theorem location_form (op : Op) (code : Nat) (loc : List Char) (h : runOp op = .redirect code loc) :
@@ -332,26 +347,17 @@ theorem location_form (op : Op) (code : Nat) (loc : List Char) (h : runOp op = .
     simp only [runOp, staticDir] at h
     split at h
     · exact Out.noConfusion h
-    · split at h
-      · exact Out.noConfusion h
-      · split at h
-        · next hcond =>
-          obtain ⟨hl, _⟩ := redirect_loc h
-          refine ⟨_, hl, ?_, ?_⟩
-          · intro hp
-            cases up with
-            | nil => exact absurd rfl hp
-            | cons x xs => simp [Op.path]
-          · intro hp
-            simp only [Op.path] at hp
-            subst hp
-            simp
-        · -- no redirect from fsFile
-          unfold fsFile at h
-          split at h
-          · exact Out.noConfusion h
-          · exact Out.noConfusion h
-          · split at h <;> exact Out.noConfusion h
+    · next p _ =>
+      have hl := staticServe_loc h
+      refine ⟨_, hl, ?_, ?_⟩
+      · intro hp
+        cases up with
+        | nil => exact absurd rfl hp
+        | cons x xs => simp [Op.path]
+      · intro hp
+        simp only [Op.path] at hp
+        subst hp
+        simp
 
 /-- **C17_same_host** — for every request whose path starts with `/` (every path a server can
     see except `""` and `*`), whichever of the four components answers it, with whatever
@@ -577,5 +583,182 @@ example : sameHost "/\\example.com/".toList = false := by decide
 example : sameHost " \t/\n/example.com/".toList = false := by decide
 example : sameHost "https://example.com/".toList = false := by decide
 example : sameHost "/example.com/".toList = true := by decide
+
+/-! ## every public entry point (round 4)
+
+`Req` covers the four constructors of the slash middlewares (with an arbitrary `Skipper`
+answer), the static handler with and without path unescaping — and therefore `Echo.Static`,
+`Echo.StaticFS`, `Group.Static`, `Group.StaticFS` at ANY mount point: below literal prefixes,
+below path parameters (`/:site/*`, where the first segment of the request path is chosen by the
+client) — and a slash middleware in front of a static route. -/
+
+def Req.path : Req → List Char
+  | .slash _ p _ _ => p
+  | .static _ _ _ up => up
+  | .preStatic _ p _ _ _ _ _ _ => p
+
+theorem ite_op_path (b : Bool) (c : Nat) (p q u : List Char) :
+    (if b = true then Op.add c p q u else Op.remove c p q u).path = p := by
+  cases b <;> rfl
+
+theorem slashMw_eq_runOp (k : SlashCtor) (p q u : List Char) (hs : k.config.skip = false) :
+    slashMw k p q u = runOp (if k.isAdd then .add k.config.code p q u else .remove k.config.code p q u) := by
+  unfold slashMw
+  simp only [hs, Bool.false_eq_true, if_false]
+  split <;> rfl
+
+/-- what a slash middleware hands on starts with the same character as the request path
+    (or is `/` for the empty path) -/
+theorem slashMw_next_head {k : SlashCtor} {p q u p' u' : List Char}
+    (h : slashMw k p q u = .next p' u') :
+    (p ≠ [] → p'.head? = p.head?) ∧ (p = [] → p' = [] ∨ p' = ['/']) := by
+  unfold slashMw at h
+  split at h
+  · injection h with h1 _; subst h1; exact ⟨fun _ => rfl, fun h => Or.inl h⟩
+  · split at h
+    · simp only [addSlash] at h
+      split at h
+      · split at h
+        · unfold redirect at h; split at h <;> exact Out.noConfusion h
+        · injection h with h1 _; subst h1
+          refine ⟨?_, fun hp => by subst hp; exact Or.inr rfl⟩
+          intro hp
+          cases p with
+          | nil => exact absurd rfl hp
+          | cons x xs => rfl
+      · injection h with h1 _; subst h1; exact ⟨fun _ => rfl, fun h => Or.inl h⟩
+    · simp only [removeSlash] at h
+      split at h
+      · next hcond =>
+        split at h
+        · unfold redirect at h; split at h <;> exact Out.noConfusion h
+        · injection h with h1 _; subst h1
+          simp only [Bool.and_eq_true, decide_eq_true_eq] at hcond
+          refine ⟨?_, fun hp => by subst hp; simp at hcond⟩
+          intro _
+          cases p with
+          | nil => simp at hcond
+          | cons x xs =>
+            cases xs with
+            | nil => simp at hcond
+            | cons y ys => simp [List.dropLast]
+      · injection h with h1 _; subst h1; exact ⟨fun _ => rfl, fun h => Or.inl h⟩
+
+theorem staticHandler_loc {d : Bool} {t : Tree} {param up : List Char} {code : Nat} {loc : List Char}
+    (h : staticHandler d t param up = .redirect code loc) : loc = sanitizeURI (up ++ ['/']) := by
+  unfold staticHandler at h
+  split at h
+  · exact staticServe_loc h
+  · simp only [staticDir] at h
+    split at h
+    · exact Out.noConfusion h
+    · exact staticServe_loc h
+
+theorem head_append_slash (up : List Char) :
+    (up ≠ [] → (up ++ ['/']).head? = up.head?) ∧ (up = [] → (up ++ ['/']).head? = some '/') := by
+  cases up <;> simp
+
+/-- every `Location` any entry point can emit is `sanitizeURI` of a value that keeps the first
+    character of the request path -/
+theorem req_location_form (r : Req) (code : Nat) (loc : List Char) (h : runReq r = .redirect code loc) :
+    ∃ u, loc = sanitizeURI u ∧ (r.path ≠ [] → u.head? = r.path.head?) ∧ (r.path = [] → u.head? = some '/') := by
+  cases r with
+  | slash k p q u =>
+    simp only [runReq] at h
+    by_cases hs : k.config.skip = true
+    · simp [slashMw, hs] at h
+    · rw [slashMw_eq_runOp k p q u (by simpa using hs)] at h
+      obtain ⟨x, hx, h1, h2⟩ := location_form _ code loc h
+      rw [ite_op_path] at h1 h2
+      exact ⟨x, hx, h1, h2⟩
+  | static d t param up =>
+    simp only [runReq] at h
+    exact ⟨_, staticHandler_loc h, (head_append_slash up).1, (head_append_slash up).2⟩
+  | preStatic k p q u d t routed param =>
+    simp only [runReq] at h
+    split at h
+    · next p' u' hn =>
+      split at h
+      · obtain ⟨h1, h2⟩ := slashMw_next_head hn
+        refine ⟨_, staticHandler_loc h, ?_, ?_⟩
+        · intro hp
+          have hp' : p'.head? = p.head? := h1 hp
+          have hne : p' ≠ [] := by
+            intro he; rw [he] at hp'
+            cases p with
+            | nil => exact hp rfl
+            | cons _ _ => simp at hp'
+          rw [(head_append_slash p').1 hne]; exact hp'
+        · intro hp
+          rcases h2 hp with he | he <;> subst he <;> rfl
+      · exact Out.noConfusion h
+    · next hne =>
+      -- the slash middleware itself answered
+      by_cases hs : k.config.skip = true
+      · simp [slashMw, hs] at h
+      · rw [slashMw_eq_runOp k p q u (by simpa using hs)] at h
+        obtain ⟨x, hx, h1, h2⟩ := location_form _ code loc h
+        rw [ite_op_path] at h1 h2
+        exact ⟨x, hx, h1, h2⟩
+
+/-- **C17_req_same_host** — `C17_same_host` for every public entry point: whichever constructor
+    built the slash middleware, whatever its `Skipper` answers, wherever the static route is
+    mounted (any `*` value), with or without path unescaping, with or without a slash middleware
+    in front of the static route: a redirect for a request path that starts with `/` carries a
+    `Location` that a browser reads as a path on the same host. -/
+theorem C17_req_same_host (r : Req) (hp : r.path.head? = some '/')
+    (code : Nat) (loc : List Char) (h : runReq r = .redirect code loc) : SameHost loc := by
+  obtain ⟨u, hl, hu, _⟩ := req_location_form r code loc h
+  subst hl
+  apply C17_sanitize_same_host
+  rw [hu (by intro hn; rw [hn] at hp; simp at hp)]
+  exact hp
+
+theorem C17_req_same_host_empty (r : Req) (hp : r.path = [])
+    (code : Nat) (loc : List Char) (h : runReq r = .redirect code loc) : SameHost loc := by
+  obtain ⟨u, hl, _, hu⟩ := req_location_form r code loc h
+  subst hl
+  exact C17_sanitize_same_host u (hu hp)
+
+/-- **C17_plain_ctor_forwards** — `AddTrailingSlash()` and `RemoveTrailingSlash()` never produce
+    a `Location` at all: they rewrite the path and hand the request on -/
+theorem C17_plain_ctor_forwards (p q u : List Char) :
+    slashMw .add p q u = addSlash 0 p q u ∧ slashMw .remove p q u = removeSlash 0 p q u ∧
+    (∀ code loc, slashMw .add p q u ≠ .redirect code loc) ∧
+    (∀ code loc, slashMw .remove p q u ≠ .redirect code loc) := by
+  refine ⟨rfl, rfl, ?_, ?_⟩
+  · intro code loc h
+    simp only [slashMw, SlashCtor.config, SlashCtor.isAdd, Bool.false_eq_true, if_false, if_true, addSlash] at h
+    split at h <;> simp at h
+  · intro code loc h
+    simp only [slashMw, SlashCtor.config, SlashCtor.isAdd, Bool.false_eq_true, if_false, removeSlash] at h
+    split at h <;> simp at h
+
+/-- **C17_skipped_untouched** — a request the `Skipper` excludes reaches the next handler as it came -/
+theorem C17_skipped_untouched (k : SlashCtor) (p q u : List Char) (h : k.config.skip = true) :
+    slashMw k p q u = .next p u := by
+  simp [slashMw, h]
+
+/-- the second clause of the property, for the configured constructors: ordinary paths, valid
+    code, `Skipper` not excluding the request -/
+theorem C17_ordinary_ctor (code : Nat) (p q ru : List Char) (ho : Ordinary p)
+    (hc : 300 ≤ code ∧ code ≤ 308) :
+    (endsWithSlash p = false →
+      slashMw (.addWith ⟨false, code⟩) p q ru = .redirect code (p ++ ['/'] ++ queryPart q)) ∧
+    slashMw (.removeWith ⟨false, code⟩) (p ++ ['/']) q ru = .redirect code (p ++ queryPart q) :=
+  ⟨fun hs => C17_ordinary_add code p q ru ho hs hc, C17_ordinary_remove code p q ru ho hc⟩
+
+-- non-vacuity: the mount below a path parameter (`e.Group("/:site").Static("/", root)`,
+-- request `/%5Cexample.com/a`): the router binds `*` = `a`, `URL.Path` is `/\example.com/a`
+example : runReq (.static false ⟨[".".toList, "a".toList], []⟩ "a".toList "/\\example.com/a".toList) =
+    .redirect 301 "/example.com/a/".toList := by decide
+-- RemoveTrailingSlash() in front of a root mount: `//example.com/../../` loses its slash and
+-- the static handler answers for the directory `.`
+example : runReq (.preStatic .remove "//example.com/../".toList [] [] false ⟨[".".toList], []⟩ true
+    "/example.com/..".toList) = .redirect 301 "/example.com/../".toList := by decide
+example : runReq (.slash (.addWith ⟨true, 301⟩) "//example.com".toList [] "/x".toList) =
+    .next "//example.com".toList "/x".toList := by decide
+example : runReq (.static true ⟨[".".toList, "%2e%2e".toList], []⟩ "%2e%2e".toList "//%2e%2e".toList) =
+    .redirect 301 "/%2e%2e/".toList := by decide
 
 end C17
